@@ -936,7 +936,7 @@ func runC20(r *evid.Run) {
 		if m := roundTripStat(stats[i]); m != "" {
 			b := safeEnc(stats[i].MarshalVT, stats[i])
 			key := "roundtrip-stat"
-			if strings.Contains(m, "invalid UTF-8") {
+			if strings.Contains(m, "invalid UTF-8") && strings.HasPrefix(m, "proto.") { // (only when it is the generic runtime that refuses: a hand-optimised entry point that refuses is a violation)
 				key = "roundtrip:non-utf8-string-rejected-by-generic-runtime"
 			}
 			r.Violate(key, m, c20Case{Kind: "roundtrip-stat", Stat: b})
